@@ -352,6 +352,20 @@ class C20(Prop):
             else:
                 items = [list(x) for x in sorted((lambda a: (a, rng.randint(a + 1, length)))(rng.randrange(length)) for _ in range(3))]
             yield self.case(kind, length, items, list(all_queries(length, rng, both if kind else [0], 3, 3))), ["wig" if kind == 0 else "bed", "allqueries", f"len={length}"]
+        # 5. megabase ranges with many bins (bigWig, binned only): bin edges are bin * span / bins, a product beyond 2^31
+        for _ in range(3 if quick else 30):
+            L = rng.choice([3000000, 5000011])      # the oracle recomputes per base: keep it in the megabase range
+            starts = sorted(rng.sample(range(0, L - 2000), 3))
+            items = []; last = 0
+            for st in starts:
+                st = max(st, last); en = min(L, st + rng.choice([1, 100, 1000])); items.append([st, en, rng.choice(VALS8)]); last = en
+            items.append([max(last, L - 500), L, rng.choice(VALS8)])
+            qs = []
+            for _q in range(6):
+                s0 = rng.choice([0, 0, -5, 1000]); e0 = rng.choice([L, L, L + 7, L - 1000])
+                m, o = rng.choice(FILLS)
+                qs.append([s0, e0, rng.choice([1000, 997, 713, 10]), rng.randrange(3), m, o, 0])
+            yield self.case(0, L, items, qs), ["wig", "megabase-bins", f"len={L}"]
         # 4. thorough: sampled layouts up to 24 bases (also 15/11, 17/7: widths whose f64 quotient is inexact)
         if not quick:
             for _ in range(20000):
